@@ -24,7 +24,8 @@ TECHNIQUE = ("static analysis: abstract interpretation of the type-checked AST o
 LEVEL_TEXT = ("Operands are symbolic (all 2^64 x 2^64 pairs at once); every obligation is an "
               "entailment between linear constraints over integers decided by Fourier-Motzkin, "
               "so a discharged obligation holds for every operand pair of that type; a failing "
-              "one is reported only with a concrete integer witness.")
+              "one is reported only with a concrete integer witness."
+              "  Also decided (added after the seeded rounds): mixed-operand operators convert the plain operand through the range-checking constructor.")
 LEVEL_NOTE = ("Trusted: clang 14 front end (types, promotions, conversions as explicit AST nodes), "
               "tool/mpx.cc, mpsa/linrel.py + absexec.py (about 600 lines), two's-complement "
               "widths of the LP64 target. The lemma X > floor(N/D) <=> X*D > N (D>=1, integers) "
